@@ -123,7 +123,7 @@ def main(tier, seed):
         if "not encodable" in e:
             notes["unsupported"] += 1
         else:
-            run.error(f"{tid}: {e}")
+            (None if e.startswith("tlc timeout") else run.error(f"{tid}: {e}"))
     by_id = {t["id"]: t for t in traces}
     nfail = 0
     from ..driver import fail_summary
